@@ -382,6 +382,30 @@ def r_index_validation(cx):
                 integ.append(bb)
             if c[1] in ("Ne", "Eq") and c[3][0] == "const" and c[3][2] == 0:
                 zero.append(bb)
+        # the number of indices itself is bounded by the number of coordinate dimensions (4): `order.len() > 4` -> error
+        lens = []
+        for bb in sorted(f.reachable()):
+            t = f.term(bb)
+            if t["k"] != "switch" or f.innermost_loop(bb) is not None:
+                continue
+            c = f.operand(t["discr"], f.end_point(bb))
+            if c[0] == "bin" and c[1] in ("Gt", "Ge", "Lt", "Le"):
+                for x, k in ((c[2], c[3]), (c[3], c[2])):
+                    if _mentions_call(x, ("len",)) and mir.strip_refs(k)[0] == "const" and isinstance(mir.strip_refs(k)[2], int) and \
+                            _mentions_call(x, ("series",)) or (
+                            mir.strip_refs(k)[0] == "const" and isinstance(mir.strip_refs(k)[2], int) and
+                            mir.strip_refs(x)[0] in ("call", "un") and "len" in str(mir.strip_refs(x)[1]) + str(mir.strip_refs(x)[0] == "un")):
+                        kk = mir.strip_refs(k)[2]
+                        op = c[1] if x is c[2] else {"Gt": "Lt", "Ge": "Le", "Lt": "Gt", "Le": "Ge"}[c[1]]
+                        # largest accepted length
+                        lens.append(kk if op in ("Gt", "Le") else kk - 1)
+        n += 1
+        okl = bool(lens) and max(lens) <= 4
+        cx.ob("R-INDEX-VALIDATION", "axisswap/length", okl,
+              "axisswap::new accepts at most 4 indices" if okl else
+              "axisswap::new accepts an `order` of %s indices (a coordinate tuple has 4 dimensions): the fifth index passes "
+              "the range test against the list's own length and indexes the 4-element tables out of bounds" % (
+                  max(lens) if lens else "any number of"), cx.where(f.d["span"]))
         n += 1
         ok = bool(mag) and all(a for _, a in mag) and bool(integ) and bool(zero)
         why = "no range test of the elements of `order`" if not mag else (
@@ -690,7 +714,7 @@ def r_axisswap_shortcut(cx):
     cx.count("R-AXISSWAP-SHORTCUT", "deciders", n)
 
 
-@rule("R-NOOP-EXACT", ["C11"])
+@rule("R-NOOP-EXACT", ["C11", "C14"])
 def r_noop_exact(cx):
     """adapt skips its work when the combined descriptor is a no-op: identity permutation and all multipliers exactly 1.
     The `noop` value is an exact comparison of the multipliers with the constant 1.0 - nothing that discards their sign
@@ -718,14 +742,16 @@ def r_noop_exact(cx):
             if v[0] == "const":
                 continue
             n += 1
-            lossy = []
-            mir.walk(v, lambda y: (lossy.append(y[1].rsplit("::", 1)[-1]) if y[0] == "call" and isinstance(y[1], str) and
-                                   y[1].rsplit("::", 1)[-1] in ("abs", "powi", "powf", "signum", "hypot") else None) or True)
-            cmp_ops = []
-            mir.walk(v, lambda y: (cmp_ops.append(y[1]) if y[0] == "bin" and y[1] in ("Lt", "Le", "Gt", "Ge") else None) or True)
-            # predicates handed to iterator adaptors (`mult.iter().all(|m| ..)`)
-            clos = []
-            mir.walk(v, lambda y: (clos.append(y[1][1]) if y[0] == "agg" and isinstance(y[1], tuple) and y[1][0] == "closure" else None) or True)
+            # everything the value is decided by: its arms and the tests that select them (`a && b` is a join)
+            import guards
+            parts = [v] + list(guards.atoms(f, v))
+            lossy, cmp_ops, clos = [], [], []
+            for part in parts:
+                mir.walk(part, lambda y: (lossy.append(y[1].rsplit("::", 1)[-1]) if y[0] == "call" and isinstance(y[1], str) and
+                                          y[1].rsplit("::", 1)[-1] in ("abs", "powi", "powf", "signum", "hypot") else None) or True)
+                mir.walk(part, lambda y: (cmp_ops.append(y[1]) if y[0] == "bin" and y[1] in ("Lt", "Le", "Gt", "Ge") else None) or True)
+                # predicates handed to iterator adaptors (`mult.iter().all(|m| ..)`)
+                mir.walk(part, lambda y: (clos.append(y[1][1]) if y[0] == "agg" and isinstance(y[1], tuple) and y[1][0] == "closure" else None) or True)
             for cn in clos:
                 if not cx.f.has_fn(cn):
                     continue
